@@ -117,7 +117,12 @@ def _execute(case):
                 case["ndmode"] = "attr"
             r = da.hdc.rolling.sum(case["w"], nodata=(None if case.get("ndmode") == "attr" else case["nd"]))
             r = r.transpose(..., "time")
-            case["y"] = strs(np.asarray(r).reshape(-1))
+            vals = np.asarray(r).reshape(-1).astype("float64")
+            ndf = float(np.float32(case["nd"]))
+            if ndf != float(case["nd"]):
+                # a nodata value the float32 result cannot hold is echoed as its float32 image: read that image as nodata
+                vals = np.where(vals == ndf, float(case["nd"]), vals)
+            case["y"] = strs(vals)
     elif op == "rollpair":
         for s in ("1", "2"):
             x = np.array(case["x" + s], dtype=case["dtype"])
@@ -189,6 +194,12 @@ def gen_cases(tier, seed):
         for n in range(1, (5 if quick else 6) + 1):
             for w in range(1, n + 1):
                 add({"op": "rollbulk", "dtype": "int16" if (n + w) % 2 else "float32", "A": alpha, "n": n, "w": w, "nd": nd_})
+    # wide integers through the accessor: nodata values beyond 2^24 (exact in int32 / int64 and in the float64 the kernel
+    # compares with, not in float32) around small data; cells beyond 2^24 themselves are outside the float32 result's reach
+    for dtype in ("int32", "int64"):
+        for nd_ in (1073741001, 16777217, -16777217):
+            for w in (1, 2, 3):
+                add({"op": "roll", "api": "accessor", "dtype": dtype, "dims": ["y", "x", "time"], "dask": False, "x": [1, 2, nd_, nd_, 3, 4, nd_, 5], "w": w, "nd": nd_, "attr": None})
     # --- (B2) accessor (trim + dims + dask), all series up to length 4/5, all windows
     for n in range(1, (4 if quick else 5) + 1):
         S = all_series(ALPHA, n)
